@@ -7,8 +7,8 @@ PATCH=$1; OUT=$2; shift 2
 WT=/tmp/mutrun/wt
 mkdir -p "$OUT" /tmp/mutrun
 if [ ! -d $WT ]; then git -C /repo worktree add -q --detach $WT HEAD; fi
-git -C $WT checkout -q --detach "$(git -C /repo rev-parse HEAD)" 2>/dev/null
 git -C $WT checkout -q -- . ; git -C $WT clean -fdq
+git -C $WT checkout -q --detach "$(git -C /repo rev-parse HEAD)" || { echo "CANNOT CHECK OUT /repo HEAD IN $WT"; exit 3; }
 git -C $WT apply "$PATCH" || { echo "PATCH DOES NOT APPLY"; exit 3; }
 export VERIF_REPO=$WT VERIF_BUILD_DIR=/tmp/mutrun/build VERIF_EVIDENCE_DIR="$OUT/evidence" VERIF_REPLAYS_DIR="$OUT/replays" VERIF_SCRATCH=/dev/shm/vf-mutrun
 for p in "$@"; do
